@@ -137,6 +137,12 @@ add("lang", "block", "(0, gi) = 1;", "gp = &(0, gi);", "gp = (0, 0);", "(1, 2, g
 
 add("lang", "file", "_Alignas(int(void)) int q%d;", "_Alignas(struct inc) int q%d;", "_Alignas(void) int q%d;", "_Alignas(int[]) int q%d;", "_Alignas(typeof(gf)) int q%d;")
 
+# a structure with a flexible array member, reached through unions (at any depth), may not be a member of a structure (6.7.2.1p3)
+add("lang", "file", "struct fa%d { int n; int v[]; }; union fu%d { struct fa%d m; int k; }; struct fs%d { union fu%d u; int tail; };",
+    "struct fb%d { int n; char v[]; }; struct ft%d { int k; union { struct fb%d m; long l; }; int tail; };",
+    "struct fc%d { int n; int v[]; }; union fv%d { union { struct fc%d m; int j; } in; int k; }; struct fw%d { union fv%d u; };",
+    "struct fd%d { int n; int v[]; }; union fx%d { struct fd%d m; }; union fx%d fy%d[2];")
+
 # ---- unsupported features ------------------------------------------------------------------------------------
 add("unsup", "file", "_Atomic int q%d;", "_Atomic(int) q%d;", "int _Atomic q%d;", "_Complex double q%d;", "double _Complex q%d;", "long double q%d = 1.0L;", "struct __attribute__((aligned(8))) ua%d { char c; };",
     "struct __attribute__((packed)) up%d { int a:3; };", "__attribute__((aligned(8))) int q%d;", "[[gnu::packed]] int q%d;", "__asm__(\"nop\");", "long double q%d(long double a) { return a + 1; }",
